@@ -40,7 +40,10 @@ uint64_t vsim_entropy_seq(void);
 /* ---- allocator ---- */
 typedef struct {
     const char *file; const char *func; int line; size_t size; uint64_t index;
+    void *pcs[6];             /* return addresses above the allocation (frame-pointer walk), for attributing leaked blocks to their owner */
 } vsim_block_info_t;
+/* function name owning a block: first frame whose function is not one of the generic buffer helpers */
+void vsim_block_owner(const vsim_block_info_t *b, char *out, size_t n);
 void     vsim_alloc_arm(void);                     /* reset the allocation index counter to 0 */
 void     vsim_alloc_fail_clear(void);
 void     vsim_alloc_fail_index(uint64_t k);        /* fail the k-th allocation after arm (may be called several times) */
@@ -59,6 +62,7 @@ int      vsim_alloc_live_list(vsim_block_info_t *out, int max);
 uint64_t vsim_alloc_unknown_frees(void);
 void     vsim_alloc_mark(void);                    /* forget currently live blocks (they are "outside the run") */
 void     vsim_alloc_track(int on);
+void     vsim_alloc_verbose(int on);              /* print "VSIM-ALLOC-FAIL file:func" to stderr when a failure is injected (crash attribution) */
 
 /* ---- AEAD / CBC / sign probes ---- */
 enum { VSIM_PR_GCM_INIT = 1, VSIM_PR_GCM_READY, VSIM_PR_GCM_ENC, VSIM_PR_GCM_DEC,
